@@ -784,11 +784,24 @@ def loopOrIf (s : Rebuild w) (ps : List (Rebuild w)) (sub : Rebuild w) (cond : I
   let s := if loopAnal.noContinue then { s with noReturn := true } else s
   pure { s with subAnal := s.subAnal ++ [OptAnalysis.mk loopAnal hasShift sub.reads clobbered sub.subAnal] }
 
+/-- The iteration order of `sub_state.pending.into_iter()` in `inline`: oracle entry `inline:k1,k2,…` (recorded
+by the Rust exactly when there are at least two keys), which must be a permutation of the keys. -/
+def takeInlineOrder (pending : List (Int × Expr w)) : M (List (Int × Expr w)) := fun os =>
+  if pending.length < 2 then .ok (pending, os)
+  else
+    match os with
+    | ("inline", ks) :: rest =>
+      let keys := mKeys pending
+      if ks.length == keys.length && keys.all (fun x => ks.contains x) && ks.all (fun x => keys.contains x) then
+        .ok (ks.filterMap (fun k => (mGet pending k).map (fun e => (k, e))), rest)
+      else .error s!"order-mismatch set inline model {keys} recorded {ks}"
+    | _ => .error s!"order-mismatch missing inline {mKeys pending}"
+
 /-- `OptRebuild::inline`. ORDER: the loop over `sub_state.written` removes pending operations of distinct
 variables (which commute) and fills a list that is sorted before use; `written_calcs` evaluates everything
 before recording anything; `perform_all` is handed `sub_state.pending` in hash order — its evaluation and
-insertion phases do not depend on the order, its explosion check emits in the order of the calculations
-(ascending variable here; see the README, site `inline`). -/
+insertion phases do not depend on the order, but its explosion check emits in the order of the calculations,
+which is observable: the order is taken from the oracle (`takeInlineOrder`). -/
 def inline (s : Rebuild w) (ps : List (Rebuild w)) (sub : Rebuild w) : M (Rebuild w) := do
   let s ←
     if sub.subShift then do
@@ -808,7 +821,8 @@ def inline (s : Rebuild w) (ps : List (Rebuild w)) (sub : Rebuild w) : M (Rebuil
   let s ←
     if sub.noReturn then pure { s with noReturn := true }
     else do
-      let s ← performAll s ps 0 sub.pending
+      let pending ← takeInlineOrder sub.pending
+      let s ← performAll s ps 0 pending
       pure { s with shift := sub.shift }
   pure { s with subAnal := s.subAnal ++ sub.subAnal }
 
@@ -918,7 +932,7 @@ block's shift is then not applied). -/
 def rebuildInsts (ps : List (Rebuild w)) (s : Rebuild w) : List (Ir.Instr w) → M (Rebuild w × Bool)
   | [] => pure (s, true)
   | i :: rest =>
-    if s.noReturn then pure (s, true)
+    if s.noReturn then pure (s, false)
     else do
       let s ← rebuildInstr ps s i
       rebuildInsts ps s rest
